@@ -477,7 +477,9 @@ OnRet(r) == /\ ret' = r
 OnQ(set) == /\ bad' = bad \cup QViol(set)
             /\ UNCHANGED <<begun, ended, dead, ret>>
 
+\* a deadlock after a command has failed also means that the failure never became an exit status (C03)
 OnDL == /\ bad' = bad \cup {Viol("C07", IF CycleThroughDedup THEN "deadlock:cycle-through-deduplicated-task" ELSE "deadlock")}
+                      \cup (IF DOMAIN dead # {} /\ ~CycleThroughDedup THEN {Viol("C03", "no-exit-status-after-failure")} ELSE {})
         /\ UNCHANGED <<begun, ended, dead, ret>>
 
 MonUnchanged == UNCHANGED mvars
